@@ -48,6 +48,10 @@ C['C06'] = dict(level=MC, engine='E2+E1', design='§2 C06',
    technique='symbolic execution of the real Sector.AddCashFlow with symbolic ledger coefficients (inductive step), per-path SMT post-conditions; SMT normal-form equivalence on enumerated call histories and RegisterCashFlow sequences through Model.main()',
    text='Inductive step: a sector whose F or INC equation carries terms with symbolic real coefficients (any accumulated multiplicity), with exclusion sets and every status of the flow variable, takes one real AddCashFlow(term, eqn, desc, is_income) for each term of a signed/bracketed/product alphabet; on every path z3 shows F after == F before + flow, INC after == INC before + [income and not excluded] flow, and the definition rule for the flow variable. Concrete histories (<=3 calls) and RegisterCashFlow sequences through main() are checked by z3 normal-form equivalence against the harness-side signed sums.',
    note="Don't-care: prior definition '0.' (zero literal not rendered as 0.0). Exclusion oracle: unsigned, bracket-stripped flow text equals an excluded name.")
+C['C16'] = dict(level=MC, engine='E3', design='§2 C16',
+   technique='CrossHair symbolic execution (z3) of PEP-316 harnesses over the real accessors: symbolic stored list, cutoff, flags, call count, caller mutation',
+   text='Harness functions call the real Model.GetTimeSeries / TimeSeriesHolder.GenerateCSVtext / EquationSolver.GenerateCSVtext / BaseSolver.CreateCsvString with symbolic series (length<=4), cutoff (None/0..5, argument or attribute), suppression flag, series group, 1-3 calls and caller-side mutation; CrossHair must report Confirmed over all paths for each and refute each reachability twin.',
+   note='Bounded by the stated sizes; Not confirmed / Unable to meet precondition are reported inconclusive. Counterexamples are replayed in plain Python before being reported.')
 PENDING = {}
 ALL = ['C%02d' % i for i in range(1, 21)]
 checks = []
